@@ -415,3 +415,52 @@ Definition object_state (l : lib) : list str :=
   | Paramiko => [s_attr_args; s_attr_session; s_attr_session_inner; s_attr_channel; s_attr_socket]
   | Ssh2 => [s_attr_args; s_attr_session; s_attr_channel; s_attr_socket]
   end.
+
+(* ------------------------------------------------------------------------------------------ *)
+(* the known_hosts file over time, and a memo of what was read from it                         *)
+(* ------------------------------------------------------------------------------------------ *)
+(* A version of the file as one open finds it at its path: what a stat call would say about it
+   (modification time, size is the length of the text) and its content.  Between two opens the file
+   may be rewritten in place, with or without the modification time moving, or replaced by rename. *)
+Record khver := mkV { v_stamp : N; v_text : bytes }.
+
+(* what a reader of known_hosts could keep from an earlier read (on the class, in the module, ...):
+   the version it read and the entry it found in it for the host *)
+Definition kmemo := option (khver * option bytes).
+
+Definition with_entry (s : scen) (e : option bytes) : scen :=
+  mkS (strict s) e (skey s) (libv s) (handshake_ok s) (has_key s) (has_pw s) (has_user s)
+      (key_ok s) (pw_ok s) (kbd_ok s).
+
+Section Memo.
+  Variable lookup_text : bytes -> option bytes.   (* parse + lookup for the (fixed) host: the entry in that content *)
+  Variable reuse : khver -> khver -> bool.        (* memo of the first version: still used for the second? *)
+
+  Definition memo_lookup (m : kmemo) (v : khver) : option bytes * kmemo :=
+    match m with
+    | Some (v0, e0) =>
+        if reuse v0 v then (e0, m) else (lookup_text (v_text v), Some (v, lookup_text (v_text v)))
+    | None => (lookup_text (v_text v), Some (v, lookup_text (v_text v)))
+    end.
+
+  (* a history of opens (any objects: the memo is not on the object): per open the version of the file at
+     that moment and the rest of the scenario ([entry] of the given scenario is ignored).  Each open is
+     paired with the scenario it REALLY ran in — the entry the content of that moment gives — while its
+     events are those of the entry the reader came up with *)
+  Fixpoint run_memo (l : lib) (m : kmemo) (h : list (khver * scen)) : list (scen * list event) :=
+    match h with
+    | [] => []
+    | (v, s) :: r =>
+        (with_entry s (lookup_text (v_text v)), open_trace true l (with_entry s (fst (memo_lookup m v))))
+          :: run_memo l (snd (memo_lookup m v)) r
+    end.
+End Memo.
+
+(* the code as written: SSHKnownHosts(file) reads and parses at every construction (Gen_HostKey.v:
+   gen_known_hosts_memo_free) — nothing is ever reused *)
+Definition reuse_never : khver -> khver -> bool := fun _ _ => false.
+(* neighbours: a memo revalidated by the content, by the modification time, by modification time and size *)
+Definition reuse_same_text (a b : khver) : bool := beq (v_text a) (v_text b).
+Definition reuse_same_stamp (a b : khver) : bool := v_stamp a =? v_stamp b.
+Definition reuse_same_stamp_size (a b : khver) : bool :=
+  (v_stamp a =? v_stamp b) && Nat.eqb (length (v_text a)) (length (v_text b)).
